@@ -29,6 +29,7 @@ fn main() {
         "C17" => props::c17::run(&cfg),
         "C18" => props::c18::run(&cfg),
         "C10" => props::c10::run(&cfg),
+        "C11" => props::c11::run(&cfg),
         "C12" => props::c12::run(&cfg),
         "C13" => props::c13::run(&cfg),
         "C15" => props::c15::run(&cfg),
